@@ -16,7 +16,7 @@ CASE_HEADER = ("From Coq Require Import List QArith Bool.\nFrom EV Require Impor
                "  match r with Ok (c, t, o) => Some (a_val c, a_val t, o) | _ => None end.\n"
                "Definition gkinds_ok (r : res (arr * arr * option (list Q))) (kc kt : kind) : bool :=\n"
                "  match r with Ok (c, t, _) => kind_eqb (a_kind c) kc && kind_eqb (a_kind t) kt | _ => false end.\n"
-               "Definition ex_eig (T : arr) : option (list Q) := stationary (a_val T).\n"
+               "Definition ex_eig (T : arr) : eig_ans := ans_of_opt (stationary (a_val T)).\n"
                "Definition no_eqp (T : arr) : res (list Q) := Ok [].\n"
                "Definition no_prinz (C : arr) : res (arr * list Q) := Ok (mkarr KArr [], []).\n"
                "Definition loop_X (X : mat) : arr -> list Q -> arr -> list Q -> arr * list Q :=\n"
@@ -36,8 +36,21 @@ RULE = ("random square count matrices, 2..6 states (mle 2..5), entries 0..5 with
         "rejecting paths (mle with a state without outgoing counts, prior of another shape, non-square counts); "
         "round 2: the builders regenerated from the current builders.py / eq_probs (Gen/BuildersGen.v) are evaluated "
         "too -- numbers against the sparse container of the case, container kinds of counts/probabilities against all "
-        "10 containers; 1000-state sparse chains (fast mixing, and a slowly mixing ring on which ARPACK fails) are "
-        "run on the real code through eq_probs' ARPACK path, oracle only; "
+        "10 containers; 1000-state sparse chains (fast mixing, and a slowly mixing ring on which ARPACK fails: it returns "
+        "non-leading eigenpairs, or gives up with ArpackNoConvergence after ~60 s) are "
+        "run on the real code through eq_probs' ARPACK path, oracle only; on each of them eq_probs(T, maxiter=1) "
+        "is called too (ARPACK then gives up at once: the populations must still be the dense solver's); "
+        "round 3s streams (systematic products): (a) non-canonically stored sparse counts -- coo/csr/csc _matrix and _array, "
+        "bsr -- with several stored entries per cell (also one stored 1 per transition, and the matrix assigns_to_counts "
+        "itself returns), stored zeros, unsorted indices, int32/int64/float64, x builder x prior kind, reference = the dense "
+        "matrix; (b) prior counts present but zero (0, 0.0, int and float zeros arrays) x builder, dense input also as "
+        "F-ordered, read-only and strided view of a larger array (whose other cells must stay), every such call made twice "
+        "on the same objects (history-call-twice); (c) one-way count patterns (C[i][j] = 0 < C[j][i], mostly below the "
+        "diagonal) through mle without prior; (d) nearly symmetric metastable chains (|T - T^T| <= 2^-28, rare transitions "
+        "2^-28..2^-38 with ratio >= 4, symmetric equal-row-sum basins, as dyadic and as huge integer counts) through "
+        "normalize/eq_probs: populations compared with the exactly computed stationary distribution (stationary-vector: "
+        "5e-3 there -- LAPACK's forward error is eps/gap, <= 4e-5 observed --, 1e-8 for every other strongly connected "
+        "normalize case), Coq compares counts and probabilities of these; "
         "plus small scope: all 2x2 count matrices over {0,1,2} (thorough: all; and a third of the 3x3 0/1 matrices); "
         "non-trivial := accepted, >= 3 states, counts not symmetric and with at least one zero entry")
 TRUSTED = ["translator/tr_builders.py (statement-by-statement translation of _apply_prior_counts, _row_normalize, "
@@ -94,13 +107,124 @@ def _strongly_connected(M):
     return reach(lambda i, j: M[i][j] > 0) and reach(lambda i, j: M[j][i] > 0)
 
 
-def _gen_valid(rng, tier):
-    builder = rng.choice(["normalize", "transpose", "mle"])
+def _oneway_matrix(rng, n):
+    """strongly connected counts dominated by one-way pairs (C[i][j] == 0 < C[j][i]), mostly with the
+    observed direction in the lower triangle: the pattern of C differs from that of C + C^T"""
+    M = [[0] * n for _ in range(n)]
+    low = rng.choice([0.35, 0.55, 0.8])
+    for i in range(n):
+        if rng.random() < 0.5:
+            M[i][i] = rng.randint(1, 5)
+        for j in range(i + 1, n):
+            u = rng.random()
+            if u < low:
+                M[j][i] = rng.randint(1, 5)
+            elif u < low + 0.15:
+                M[i][j] = rng.randint(1, 5)
+            elif u < low + 0.25:
+                M[i][j], M[j][i] = rng.randint(1, 5), rng.randint(1, 5)
+    perm = list(range(n))
+    rng.shuffle(perm)
+    if rng.random() < 0.5:                 # the cycle n-1 -> n-2 -> ... -> 0 -> n-1: all but one edge point down
+        perm = list(range(n - 1, -1, -1))
+    for a in range(n):
+        i, j = perm[a], perm[(a + 1) % n]
+        if M[i][j] == 0:
+            M[i][j] = rng.randint(1, 3)
+    return M
+
+
+def _lower_oneway(C):
+    M = [[_F(x) for x in r] for r in C]
+    n = len(M)
+    return sum(1 for i in range(n) for j in range(i + 1, n) if len(M[i]) == n and M[i][j] == 0 < M[j][i])
+
+
+PRIOR_KINDS = ["none", "scalar", "mat", "zero-int", "zero-float", "zeros-int", "zeros-float"]
+
+
+def _gen_prior(rng, n, pk):
+    if pk == "none":
+        return None
+    if pk == "scalar":
+        p = {"scalar": str(rng.choice([Fraction(1), Fraction(2), Fraction(1, 2), Fraction(1, 4)]))}
+        if rng.random() < 0.3:
+            p["float"] = True
+        return p
+    if pk == "zero-int":
+        return {"scalar": "0"}
+    if pk == "zero-float":
+        return {"scalar": "0", "float": True}
+    if pk in ("zeros-int", "zeros-float"):
+        return {"mat": [["0"] * n for _ in range(n)], "float": pk == "zeros-float"}
+    p = {"mat": [[str(Fraction(rng.choice([0, 0, 1, 1, 2, 3]), rng.choice([1, 1, 2]))) for _ in range(n)]
+                 for _ in range(n)]}
+    if all(_F(x) == 0 for r in p["mat"] for x in r):
+        p["mat"][rng.randrange(n)][rng.randrange(n)] = "1"
+    if rng.random() < 0.3:
+        p["float"] = True
+    return p
+
+
+def _prior_kind(prior):
+    if prior is None:
+        return "none"
+    if "scalar" in prior:
+        if _F(prior["scalar"]) == 0:
+            return "zero-float" if prior.get("float") else "zero-int"
+        return "scalar"
+    if all(_F(x) == 0 for r in prior["mat"] for x in r):
+        return "zeros-float" if prior.get("float") else "zeros-int"
+    return "mat"
+
+
+def _gen_raw(rng, C):
+    """a non-canonical sparse storage of the count matrix C: several stored entries at the same
+    (row, col) -- in particular one stored 1 per observed transition, what assigns_to_counts returns --,
+    explicitly stored zeros, entries in no particular order.  The matrix it denotes is C."""
+    M = [[_F(x) for x in r] for r in C]
+    n = len(M)
+    integer = all(x.denominator == 1 for r in M for x in r)
+    unit = integer and rng.random() < 0.35
+    ent = []
+    for i in range(n):
+        for j in range(len(M[i])):
+            v = M[i][j]
+            if v == 0:
+                continue
+            if unit:
+                parts = [Fraction(1)] * int(v)
+            else:
+                q = Fraction(1) if integer else Fraction(1, 2)
+                units = int(v / q)
+                k = min(units, rng.choice([1, 1, 2, 2, 3]))
+                cuts = sorted(rng.sample(range(1, units), k - 1)) if k > 1 else []
+                parts = [q * (b - a) for a, b in zip([0] + cuts, cuts + [units])]
+            ent += [[i, j, p] for p in parts]
+    nz = 0 if unit else rng.choice([0, 1, 2, 3])
+    for _ in range(nz):                      # explicitly stored zeros, on empty and on occupied cells
+        ent.append([rng.randrange(n), rng.randrange(len(M[0])), Fraction(0)])
+    if not any(a[:2] == b[:2] for k, a in enumerate(ent) for b in ent[:k]):
+        i, j, v = ent[rng.randrange(len(ent))]
+        ent.append([i, j, Fraction(0)])      # at least one repeated coordinate
+    rng.shuffle(ent)
+    dtype = ("int64" if rng.random() < 0.7 else "int32") if integer else "float64"
+    return {"entries": [[i, j, str(v)] for i, j, v in ent], "dtype": dtype, "unit": unit,
+            "a2c": bool(unit and rng.random() < 0.6)}
+
+
+def _gen_valid(rng, tier, builder=None, pk=None, cls=None, raw=None, layouts=None):
+    builder = builder or rng.choice(["normalize", "transpose", "mle"])
     n = rng.randint(2, 5 if builder == "mle" else 6)
-    cls = "sc" if builder == "mle" else rng.choice(["sc", "sc", "rows", "zero-row"])
+    if cls is None:
+        cls = rng.choice(["sc", "sc", "oneway"]) if builder == "mle" else \
+            rng.choice(["sc", "sc", "oneway", "rows", "zero-row"])
     density = rng.choice([0.15, 0.35, 0.6, 0.9])
     if cls == "sc":
         M = _sc_matrix(rng, n, 0.0 if rng.random() < 0.08 else density)   # 8 %: a bare cycle
+    elif cls == "oneway":
+        n = max(n, 3)
+        M = _oneway_matrix(rng, n)
     else:
         M = [[(rng.randint(1, 5) if rng.random() < density else 0) for _ in range(n)] for _ in range(n)]
         for i in range(n):
@@ -117,22 +241,93 @@ def _gen_valid(rng, tier):
                 M[a][a] = rng.randint(1, 3)
     half = rng.random() < 0.15
     C = [[str(Fraction(x, 2) if half else Fraction(x)) for x in r] for r in M]
-    pk = rng.choice(["none", "none", "scalar", "scalar", "mat"])
-    if pk == "none":
-        prior = None
-    elif pk == "scalar":
-        prior = {"scalar": str(rng.choice([Fraction(1), Fraction(2), Fraction(1, 2), Fraction(1, 4), Fraction(0)]))}
-    else:
-        prior = {"mat": [[str(Fraction(rng.choice([0, 0, 1, 1, 2, 3]), rng.choice([1, 1, 2]))) for _ in range(n)]
-                         for _ in range(n)]}
-    if builder == "normalize" and cls != "sc":
+    if pk is None:
+        pk = rng.choice(["none"] * 4 + ["scalar"] * 3 + ["mat"] * 2 + ["zero-int", "zero-float", "zeros-int", "zeros-float"])
+    prior = _gen_prior(rng, n, pk)
+    if builder == "normalize" and cls not in ("sc", "oneway"):
         # stationary vector is only determined (and only claimed) for strongly connected counts
         eff = _effective(C, prior)
         eq = _strongly_connected(eff) and rng.random() < 0.5
     else:
         eq = rng.random() < 0.6
-    return {"builder": builder, "C": C, "prior": prior, "eq": eq, "cls": cls, "kind": rng.choice(SPARSE),
-            "expect_err": False}
+    c = {"builder": builder, "C": C, "prior": prior, "eq": eq, "cls": cls, "kind": rng.choice(SPARSE),
+         "expect_err": False}
+    if raw if raw is not None else rng.random() < 0.15:
+        c["raw"] = _gen_raw(rng, C)
+    if layouts if layouts is not None else (pk.startswith("zero") or rng.random() < 0.2):
+        c["layouts"] = True
+    return c
+
+
+def _rownorm_exact(M):
+    return [[(x / sum(r) if sum(r) else Fraction(0)) for x in r] for r in M]
+
+
+def _stationary_exact(T):
+    """the stationary distribution of an irreducible stochastic matrix, by exact elimination"""
+    n = len(T)
+    A = [[(T[j][i] - (1 if i == j else 0)) for j in range(n)] for i in range(n)]    # (T^T - I) x = 0
+    A[n - 1] = [Fraction(1)] * n                                                   # sum x = 1
+    b = [Fraction(0)] * (n - 1) + [Fraction(1)]
+    for k in range(n):
+        p = next((r for r in range(k, n) if A[r][k] != 0), None)
+        if p is None:
+            return None
+        A[k], A[p], b[k], b[p] = A[p], A[k], b[p], b[k]
+        for r in range(n):
+            if r != k and A[r][k] != 0:
+                f = A[r][k] / A[k][k]
+                A[r] = [x - f * y for x, y in zip(A[r], A[k])]
+                b[r] -= f * b[k]
+    return [b[k] / A[k][k] for k in range(n)]
+
+
+def _gen_nearsym(rng, tier):
+    """Metastable chains whose transition matrix is symmetric up to entries of 2^-28 .. 2^-38 (all < 1e-8) while the
+    stationary distribution is far from uniform: basins with symmetric, equal-row-sum internal counts
+    (uniform inside a basin), joined by rare transitions whose two directions differ by a factor >= 4.
+    |T - T^T| < 1e-8 everywhere; the basin weights are fixed by the ratio of the rare transitions alone."""
+    nb = rng.choice([2, 2, 3])
+    sizes = [rng.randint(1, 3) for _ in range(nb)]
+    if sum(sizes) < 3:
+        sizes[0] += 1
+    n = sum(sizes)
+    starts = [sum(sizes[:k]) for k in range(nb)]
+    sym = rng.random() < 0.75
+    R = rng.choice([8, 16, 20])
+    M = [[Fraction(0)] * n for _ in range(n)]
+    for k in range(nb):
+        idx = list(range(starts[k], starts[k] + sizes[k]))
+        if sym:
+            for a in idx:
+                for b in idx:
+                    if a < b:
+                        M[a][b] = M[b][a] = Fraction(rng.randint(1, 3))
+            for a in idx:
+                M[a][a] = R - sum(M[a])                      # equal row sums R: uniform inside the basin
+        else:                                                # ordinary (asymmetric) basin: a control
+            for a in idx:
+                for b in idx:
+                    M[a][b] = Fraction(rng.randint(1, 4))
+    e = rng.randint(28, 34)
+    order = list(range(nb))
+    rng.shuffle(order)
+    links = [(order[k], order[k + 1]) for k in range(nb - 1)]
+    if nb == 3 and rng.random() < 0.5:
+        links.append((order[2], order[0]))
+    for (p, q) in links:
+        a = starts[p] + rng.randrange(sizes[p])
+        b = starts[q] + rng.randrange(sizes[q])
+        ratio = rng.choice([4, 8, 16])
+        f, g = Fraction(1, 2 ** e), Fraction(1, ratio * 2 ** e)      # 2^-28 .. 2^-38, all below 1e-8
+        if rng.random() < 0.5:
+            f, g = g, f
+        M[a][b] += f * R
+        M[b][a] += g * R
+    scale = 2 ** (e + 4) if rng.random() < 0.4 else 1        # 40 %: the same chain as (huge) integer counts
+    C = [[str(x * scale) for x in r] for r in M]
+    return {"builder": "normalize", "C": C, "prior": None, "eq": True, "cls": "nearsym", "kind": rng.choice(SPARSE),
+            "expect_err": False, "layouts": rng.random() < 0.3, "sym_basins": sym}
 
 
 def _gen_malformed(rng):
@@ -186,10 +381,29 @@ def _small_scope(rng, tier):
 
 
 def generate(rng, tier):
-    n = 260 if tier == "quick" else 2000
+    n = 200 if tier == "quick" else 1700
     cases = [_gen_valid(rng, tier) for _ in range(n)]
-    cases += [_gen_malformed(rng) for _ in range(n // 8)]
+    cases += [_gen_malformed(rng) for _ in range(n // 6)]
     cases += _small_scope(rng, tier)
+    # round 3s streams, each a systematic product rather than a random draw:
+    reps = 1 if tier == "quick" else 8
+    # (a) non-canonically stored sparse counts x builder x prior kind
+    for _ in range(reps):
+        for b in ("normalize", "transpose", "mle"):
+            for pk in PRIOR_KINDS + ["scalar", "none"]:
+                cases.append(_gen_valid(rng, tier, builder=b, pk=pk, raw=True,
+                                        cls=rng.choice(["sc", "sc", "oneway"] if b == "mle" else ["sc", "oneway", "rows"])))
+    # (b) prior counts that are present but zero x builder, with layouts of the dense input and a second call
+    for _ in range(reps):
+        for b in ("normalize", "transpose", "mle"):
+            for pk in ("zero-int", "zero-float", "zeros-int", "zeros-float"):
+                cases.append(_gen_valid(rng, tier, builder=b, pk=pk, raw=False, layouts=True))
+    # (c) one-way count patterns through mle (and the other builders), no prior
+    for _ in range(4 * reps):
+        for b in ("mle", "mle", "normalize", "transpose"):
+            cases.append(_gen_valid(rng, tier, builder=b, pk="none", cls="oneway", raw=False))
+    # (d) nearly symmetric metastable chains through eq_probs
+    cases += [_gen_nearsym(rng, tier) for _ in range(24 * reps)]
     # the >= 1000-state sparse branch of eq_probs goes through ARPACK instead of LAPACK: one (two) big chains
     for _ in range(1 if tier == "quick" else 2):
         cases.append({"kind": "big", "n": rng.choice([1000, 1003]), "seed": rng.randrange(10 ** 6),
@@ -225,6 +439,16 @@ def _run_big(c):
             out[kind] = {"err": type(ex).__name__}
     if "pi" in out["sparse"] and "pi" in out["dense"]:
         out["agree"] = float(np.abs(out["sparse"]["pi"] - out["dense"]["pi"]).max())
+    # ARPACK made to give up at once (one restart): eq_probs must hand on the dense solver's vector, not
+    # scipy.sparse.linalg.ArpackNoConvergence (which the default maxiter meets on ~1 ring in 12, after a minute)
+    try:
+        from enspara.msm.transition_matrices import eq_probs
+        _, T, _ = builders.normalize(getattr(sp, c["fmt"])(C), calculate_eq_probs=False)
+        pi = np.asarray(eq_probs(T, maxiter=1), dtype=float).ravel()
+        Td = T.toarray()
+        out["giveup"] = {"resid": float(np.abs(pi @ Td - pi).max()), "sum": float(pi.sum()), "min": float(pi.min())}
+    except Exception as ex:
+        out["giveup"] = {"err": type(ex).__name__}
     for k in ("sparse", "dense"):
         out[k].pop("pi", None)
     return out
@@ -264,38 +488,120 @@ def _prior_arg(prior):
         return None
     if "scalar" in prior:
         f = _F(prior["scalar"])
-        return int(f) if f.denominator == 1 else float(f)
-    return _np_matrix(prior["mat"])
+        return float(f) if (prior.get("float") or f.denominator != 1) else int(f)
+    P = _np_matrix(prior["mat"])
+    return P.astype(float) if prior.get("float") else P
 
 
 def _fr_mat(A):
     return [[str(Fraction(float(x))) for x in r] for r in np.asarray(A, dtype=float)]
 
 
-def _call(builder, kind, A, prior, eq):
+RAW_KINDS = ["coo_matrix:raw", "coo_array:raw", "csr_matrix:raw", "csr_array:raw", "csc_matrix:raw", "csc_array:raw",
+             "bsr_matrix:raw"]
+LAYOUT_KINDS = ["ndarray:F", "ndarray:ro", "ndarray:view"]
+
+
+def _raw_container(kind, raw, shape):
+    """the stored entries exactly as listed (scipy does not canonicalise on construction)"""
+    import scipy.sparse as sp
+    name = kind.split(":")[0]
+    dt = np.dtype(raw["dtype"])
+    ent = [(i, j, _F(v)) for i, j, v in raw["entries"]]
+    val = (lambda v: int(v)) if dt.kind == "i" else (lambda v: float(v))
+    if kind.endswith(":a2c"):                 # the producer itself: one 2-frame trajectory per observed transition
+        from enspara.msm.transition_matrices import assigns_to_counts
+        trjs = np.array([[i, j] for i, j, v in ent for _ in range(int(v))], dtype=int)    # stored zeros are no transitions
+        return assigns_to_counts(trjs, lag_time=1, max_n_states=shape[0])
+    if name.startswith("coo"):
+        return getattr(sp, name)((np.array([val(v) for _, _, v in ent], dtype=dt),
+                                  (np.array([i for i, _, _ in ent]), np.array([j for _, j, _ in ent]))), shape=shape)
+    major = 1 if name.startswith("csc") else 0
+    ent = sorted(ent, key=lambda t: t[major])                    # stable: minor indices stay in listed order
+    indptr = np.zeros(shape[major] + 1, dtype=np.int32)
+    for t in ent:
+        indptr[t[major] + 1] += 1
+    indptr = np.cumsum(indptr).astype(np.int32)
+    indices = np.array([t[1 - major] for t in ent], dtype=np.int32)
+    data = np.array([val(v) for _, _, v in ent], dtype=dt)
+    if name.startswith("bsr"):
+        return sp.bsr_matrix((data.reshape(-1, 1, 1), indices, indptr), shape=shape)
+    return getattr(sp, name)((data, indices, indptr), shape=shape)
+
+
+def _make_input(kind, A, raw=None):
+    """-> (the object handed to the builder, an owner array whose every cell must stay unchanged or None)"""
+    if kind in ("ndarray:F",):
+        return np.asfortranarray(A), None
+    if kind == "ndarray:ro":
+        X = np.array(A)
+        X.setflags(write=False)
+        return X, None
+    if kind == "ndarray:view":                # every second row/column of a larger array (filled with 7s)
+        big = np.full((2 * A.shape[0], 2 * A.shape[1]), 7, dtype=A.dtype)
+        big[::2, ::2] = A
+        return big[::2, ::2], big
+    if ":" in kind:
+        X = _raw_container(kind, raw, A.shape)
+        if X.shape != A.shape or not np.array_equal(np.asarray(X.toarray(), dtype=float), np.asarray(A, dtype=float)):
+            raise AssertionError("harness: raw container %s does not denote the case's matrix" % kind)
+        return X, None
+    return _container(kind, A), None
+
+
+def _snapshot(X):
+    """what 'the caller's matrix' is: type, dtype, shape, denoted matrix and writeability"""
+    import scipy.sparse as sp
+    if sp.issparse(X):
+        return (type(X), X.dtype, X.shape, np.asarray(X.toarray()).copy(), None)
+    return (type(X), X.dtype, X.shape, np.array(X, copy=True), (X.flags.writeable, X.strides))
+
+
+def _same_snapshot(a, b):
+    return a[0] is b[0] and a[1] == b[1] and a[2] == b[2] and np.array_equal(a[3], b[3]) and a[4] == b[4]
+
+
+def _summ(c, t, pi):
+    cd, td = _dense(c), _dense(t)
+    fin = bool(np.all(np.isfinite(cd)) and np.all(np.isfinite(td)) and
+               (pi is None or np.all(np.isfinite(np.asarray(pi, dtype=float)))))
+    return {"kC": type(c).__name__, "kT": type(t).__name__,
+            "kpi": None if pi is None else type(pi).__name__,
+            "shape": [list(cd.shape), list(td.shape), None if pi is None else list(np.shape(pi))],
+            "C": _fr_mat(cd) if cd.ndim == 2 and fin else None, "T": _fr_mat(td) if td.ndim == 2 and fin else None,
+            "pi": None if pi is None or not fin else [str(Fraction(float(x))) for x in np.asarray(pi, dtype=float).ravel()],
+            "finite": fin}
+
+
+def _call(builder, kind, A, prior, eq, raw=None, twice=False):
     from enspara.msm import builders
-    X = _container(kind, A)
-    before, tbefore, dbefore = _dense(X).copy(), type(X), X.dtype
+    X, owner = _make_input(kind, A, raw)
+    before = _snapshot(X)
+    obefore = None if owner is None else owner.copy()
     P = _prior_arg(prior)
-    Pbefore = None if not isinstance(P, np.ndarray) else P.copy()
+    Pbefore = None if not isinstance(P, np.ndarray) else (P.copy(), P.dtype)
     try:
         c, t, pi = getattr(builders, builder)(X, prior_counts=P, calculate_eq_probs=eq)
     except Exception as ex:
         return {"err": type(ex).__name__}
-    cd, td = _dense(c), _dense(t)
-    if not (np.all(np.isfinite(cd)) and np.all(np.isfinite(td)) and
-            (pi is None or np.all(np.isfinite(np.asarray(pi, dtype=float))))):
+    out = _summ(c, t, pi)
+    if not out["finite"]:
         return {"err": "NonFiniteOutput"}
-    out = {"kC": type(c).__name__, "kT": type(t).__name__,
-           "kpi": None if pi is None else type(pi).__name__,
-           "shape": [list(cd.shape), list(td.shape), None if pi is None else list(np.shape(pi))],
-           "C": _fr_mat(cd) if cd.ndim == 2 else None, "T": _fr_mat(td) if td.ndim == 2 else None,
-           "pi": None if pi is None else [str(Fraction(float(x))) for x in np.asarray(pi, dtype=float).ravel()],
-           "finite": bool(np.all(np.isfinite(cd)) and np.all(np.isfinite(td)) and
-                          (pi is None or np.all(np.isfinite(np.asarray(pi, dtype=float))))),
-           "unchanged": bool(type(X) is tbefore and X.dtype == dbefore and X.shape == before.shape and
-                             np.array_equal(_dense(X), before) and
-                             (Pbefore is None or np.array_equal(P, Pbefore)))}
+
+    def untouched():
+        return bool(_same_snapshot(_snapshot(X), before) and
+                    (obefore is None or np.array_equal(owner, obefore)) and
+                    (Pbefore is None or (np.array_equal(P, Pbefore[0]) and P.dtype == Pbefore[1])))
+    out["unchanged"] = untouched()
+    if twice:
+        # the same call again on the very same objects: a builder is a function of its arguments
+        try:
+            c2, t2, pi2 = getattr(builders, builder)(X, prior_counts=P, calculate_eq_probs=eq)
+            o2 = _summ(c2, t2, pi2)
+            out["again"] = {k: o2[k] for k in ("kC", "kT", "C", "T", "pi")}
+            out["again"]["unchanged"] = untouched()
+        except Exception as ex:
+            out["again"] = {"err": type(ex).__name__}
     return out
 
 
@@ -304,8 +610,15 @@ def run_impl(c):
         return _run_big(c)
     A = _np_matrix(c["C"])
     res = {"by_kind": {}}
-    for k in KINDS:
-        res["by_kind"][k] = _call(c["builder"], k, A, c["prior"], c["eq"])
+    kinds = list(KINDS)
+    if c.get("layouts"):
+        kinds += LAYOUT_KINDS
+    if c.get("raw"):
+        kinds += RAW_KINDS + (["coo_matrix:a2c"] if c["raw"].get("a2c") else [])
+    zero_prior = _prior_kind(c["prior"]).startswith("zero")
+    for k in kinds:
+        twice = zero_prior or ":" in k or k in ("ndarray", c["kind"])
+        res["by_kind"][k] = _call(c["builder"], k, A, c["prior"], c["eq"], raw=c.get("raw"), twice=twice)
     if c["builder"] == "mle" and not c["expect_err"]:
         # populations of the same (deterministic) run, needed to rebuild X when eq is off
         if c["eq"]:
@@ -328,9 +641,10 @@ def _mat(M):
     return [[_F(x) for x in r] for r in M]
 
 
-def _check_one(c, kind, r, eff, out):
+def _check_one(c, kind, r, eff, out, pistar=None):
     b, n = c["builder"], len(eff)
     tag = "[%s/%s] " % (b, kind)
+    kind = kind.split(":")[0]             # "csr_matrix:raw", "ndarray:F", ...: the container type is what counts below
     if "err" in r:
         if r["err"] == "NonFiniteOutput":
             out.append(("finite", tag + "valid input gives nan/inf in the returned model"))
@@ -381,6 +695,16 @@ def _check_one(c, kind, r, eff, out):
                     v = sum(pi[i] * T[i][j] for i in range(n))
                     if not _close(v, pi[j]):
                         out.append(("stationary", tag + "(pi T)[%d] = %s but pi[%d] = %s" % (j, float(v), j, float(pi[j]))))
+            if pistar is not None:
+                # irreducible chain: "stationary under T" determines the vector; a residual test alone cannot
+                # see a wrong vector when the chain mixes slowly (its residual is of the size of the rare
+                # transition probabilities), so compare with the exactly computed stationary distribution
+                tolv = Fraction(5, 1000) if c["cls"] == "nearsym" else Fraction(1, 10 ** 8)
+                worst = max(abs(x - y) for x, y in zip(pi, pistar))
+                if worst > tolv:
+                    out.append(("stationary-vector", tag + "populations %s are not the stationary distribution %s of the "
+                                "returned chain (off by %.3g)" % ([round(float(x), 6) for x in pi],
+                                                                  [round(float(x), 6) for x in pistar], float(worst))))
             if b in ("transpose", "mle"):
                 for i in range(n):
                     for j in range(i + 1, n):
@@ -397,6 +721,20 @@ def _check_one(c, kind, r, eff, out):
         out.append(("container", tag + "populations come back as %s" % r["kpi"]))
     if not r["unchanged"]:
         out.append(("input-mutated", tag + "the caller's matrix (or prior) was changed"))
+    ag = r.get("again")
+    if ag is not None:
+        if "err" in ag:
+            out.append(("history-call-twice", tag + "the same call on the same objects raised %s the second time" % ag["err"]))
+        else:
+            if ag["kC"] != r["kC"] or ag["kT"] != r["kT"] or ag["C"] != r["C"]:
+                out.append(("history-call-twice", tag + "second call on the same objects returns other counts: %s, first %s"
+                            % (ag["C"], r["C"])))
+            elif ag["T"] is None or (ag["pi"] is None) != (r["pi"] is None) or \
+                    any(not _close(_F(y), _F(x)) for p, q in zip(r["T"], ag["T"]) for x, y in zip(p, q)) or \
+                    (r["pi"] is not None and any(not _close(_F(y), _F(x)) for x, y in zip(r["pi"], ag["pi"]))):
+                out.append(("history-call-twice", tag + "second call on the same objects returns another model"))
+            if not ag["unchanged"]:
+                out.append(("input-mutated", tag + "the caller's matrix (or prior) was changed by the second call"))
 
 
 def _oracle_big(c, r):
@@ -404,7 +742,9 @@ def _oracle_big(c, r):
     for k in ("sparse", "dense"):
         x = r[k]
         if "err" in x:
-            out.append(("big-no-value", "%s %s on %d states raised %s" % (c["builder"], k, c["n"], x["err"])))
+            # ARPACK giving up (ArpackNoConvergence after maxiter restarts) is keyed apart from every other failure
+            key = "big-no-value:ArpackNoConvergence" if (x["err"] == "ArpackNoConvergence" and k == "sparse") else "big-no-value"
+            out.append((key, "%s %s on %d states raised %s" % (c["builder"], k, c["n"], x["err"])))
             continue
         if x["resid"] > 1e-8 or abs(x["sum"] - 1) > 1e-8 or x["min"] < -1e-12:
             out.append(("stationary", "%s %s, %d states: |pi T - pi| = %.2e, sum %.6f, min %.2e" % (c["builder"], k, c["n"], x["resid"], x["sum"], x["min"])))
@@ -412,6 +752,14 @@ def _oracle_big(c, r):
             out.append(("stochastic", "%s %s: row sums off by %.2e" % (c["builder"], k, x["rowsum"])))
     if r.get("agree", 0) > 1e-8:
         out.append(("kinds-agree", "sparse and dense populations differ by %.2e on %d states" % (r["agree"], c["n"])))
+    g = r.get("giveup")
+    if g is not None:
+        what = "eq_probs(%s T of %d states, maxiter=1)" % (c["fmt"], c["n"])
+        if "err" in g:
+            key = "big-no-value:ArpackNoConvergence" if g["err"] == "ArpackNoConvergence" else "big-no-value"
+            out.append((key, "%s raised %s (ARPACK gives up: the dense solver has the answer)" % (what, g["err"])))
+        elif g["resid"] > 1e-8 or abs(g["sum"] - 1) > 1e-8 or g["min"] < -1e-12:
+            out.append(("stationary", "%s: |pi T - pi| = %.2e, sum %.6f, min %.2e" % (what, g["resid"], g["sum"], g["min"])))
     return out
 
 
@@ -428,11 +776,16 @@ def oracle(c, r):
                 out.append(("error-clause", "[%s/%s] %s input accepted" % (c["builder"], k, c["cls"])))
         return out
     eff = _effective(c["C"], c["prior"])
-    for k in KINDS:
-        _check_one(c, k, bk[k], eff, out)
+    pistar = None
+    if c["builder"] == "normalize" and c["eq"] and _strongly_connected(eff):
+        pistar = _stationary_exact(_rownorm_exact(eff))
+    for k in bk:
+        _check_one(c, k, bk[k], eff, out, pistar)
     ref = bk["ndarray"]
     if "err" not in ref and ref["T"] is not None:
-        for k in SPARSE:
+        for k in bk:
+            if k == "ndarray":
+                continue
             rk = bk[k]
             if "err" in rk or rk["T"] is None:
                 continue
@@ -483,10 +836,10 @@ def _model_term(c, r):
     return "(%s_builder %s)" % (b, args)
 
 
-def _expected(rk):
+def _expected(rk, nopi=False):
     if "err" in rk or rk.get("C") is None or rk.get("T") is None:
         return "(@None result)"
-    pi = "(@None (list Q))" if rk["pi"] is None else "(Some %s)" % clist(rk["pi"], _cqs, "Q")
+    pi = "(@None (list Q))" if rk["pi"] is None or nopi else "(Some %s)" % clist(rk["pi"], _cqs, "Q")
     return "(Some (%s, %s, %s))" % (_cmat(rk["C"]), _cmat(rk["T"]), pi)
 
 
@@ -527,8 +880,15 @@ def coq_check(c, r):
     if "by_kind" not in r:
         return None
     bk = r["by_kind"]
-    parts = ["(let m := %s in result_close (1#1000000000) m %s)" % (_model_term(c, r), _expected(bk["ndarray"])),
-             "(let g := gres %s in result_close (1#1000000000) g %s)" % (_gen_term(c, r, c["kind"]), _expected(bk[c["kind"]]))]
+    nopi = c["cls"] == "nearsym"
+    if nopi:
+        # slowly mixing chain: LAPACK's stationary vector is accurate to about eps/gap (1e-7 .. 1e-4), not to the 1e-9 of
+        # the exact comparison; counts and probabilities are compared here (normalize's do not depend on the flag),
+        # the populations by the oracle (clauses stationary, stationary-vector)
+        c = dict(c, eq=False)
+    parts = ["(let m := %s in result_close (1#1000000000) m %s)" % (_model_term(c, r), _expected(bk["ndarray"], nopi)),
+             "(let g := gres %s in result_close (1#1000000000) g %s)" % (_gen_term(c, r, c["kind"]),
+                                                                        _expected(bk[c["kind"]], nopi))]
     for k in KINDS:
         rk = bk[k]
         if "err" in rk or rk.get("kC") is None:
@@ -568,9 +928,39 @@ def nontrivial(c, r):
 def tags(c, r):
     if c.get("kind") == "big":
         return ["arpack-1000-states"]
+    pk = _prior_kind(c["prior"])
     t = ["builder:" + c["builder"], "class:" + c["cls"], "eq-on" if c["eq"] else "eq-off", "cmp-kind:" + c["kind"],
          "prior:" + ("none" if c["prior"] is None else "scalar" if "scalar" in c["prior"] else "matrix"),
          "n=%d" % len(c["C"])]
+    if pk.startswith("zero"):
+        t += ["prior-zero:" + pk, "prior-zero:" + c["builder"]]
+    if c["prior"] is not None and c["prior"].get("float"):
+        t.append("prior-float-typed")
+    if not c["expect_err"]:
+        low = _lower_oneway(c["C"])
+        if low >= 2:
+            t.append("lower-oneway>=2")
+            if c["builder"] == "mle" and c["prior"] is None:
+                t.append("mle-no-prior-lower-oneway>=2")
+    if c.get("layouts"):
+        t.append("dense-layouts(F,readonly,strided-view)")
+    if c.get("raw"):
+        ent = c["raw"]["entries"]
+        t += ["noncanon:%s:prior-%s" % (c["builder"], "none" if pk == "none" else "scalar" if "scalar" in c["prior"] else "matrix"),
+              "noncanon:" + c["raw"]["dtype"]]
+        if c["raw"]["unit"]:
+            t.append("noncanon:one-entry-per-transition")
+        if c["raw"].get("a2c"):
+            t.append("noncanon:from-assigns_to_counts")
+        if any(_F(v) == 0 for _, _, v in ent):
+            t.append("noncanon:stored-zero")
+        if len({(i, j) for i, j, _ in ent}) < len(ent):
+            t.append("noncanon:duplicates")
+    if c["cls"] == "nearsym":
+        t.append("nearsym:" + ("symmetric-basins" if c.get("sym_basins") else "asymmetric-basins"))
+        t.append("nearsym:" + ("integer-counts" if all("/" not in x for row in c["C"] for x in row) else "dyadic-counts"))
+    if "by_kind" in r and any("again" in v for v in r["by_kind"].values()):
+        t.append("call-twice")
     if c["expect_err"]:
         t.append("error-expected")
     if any("/" in x for row in c["C"] for x in row):
@@ -587,14 +977,24 @@ def tags(c, r):
 ESSENTIAL_TAGS = ["arpack-1000-states", "builder:normalize", "builder:transpose", "builder:mle", "class:sc", "class:rows", "class:zero-row",
                   "eq-on", "eq-off", "prior:none", "prior:scalar", "prior:matrix", "error-expected", "impl-rejects",
                   "class:mle-no-outgoing", "class:prior-shape", "class:nonsquare", "prior-densified-sparse"] + \
-                 ["cmp-kind:" + k for k in SPARSE]
+                 ["cmp-kind:" + k for k in SPARSE] + \
+                 ["class:oneway", "class:nearsym", "lower-oneway>=2", "mle-no-prior-lower-oneway>=2", "call-twice",
+                  "dense-layouts(F,readonly,strided-view)", "prior-float-typed",
+                  "noncanon:duplicates", "noncanon:stored-zero", "noncanon:one-entry-per-transition",
+                  "noncanon:from-assigns_to_counts", "noncanon:int64", "noncanon:float64",
+                  "nearsym:symmetric-basins", "nearsym:integer-counts", "nearsym:dyadic-counts"] + \
+                 ["prior-zero:" + k for k in ("zero-int", "zero-float", "zeros-int", "zeros-float",
+                                              "normalize", "transpose", "mle")] + \
+                 ["noncanon:%s:prior-%s" % (b, k) for b in ("normalize", "transpose", "mle")
+                  for k in ("none", "scalar", "matrix")]
 
 
 def search(rng, tier):
     """Deeper look for a concrete failing input when a proof or the correspondence broke but the
     oracle saw nothing on this run's cases: fresh random cases plus the whole small scope."""
     found = []
-    cases = _small_scope(rng, "thorough") + [_gen_valid(rng, tier) for _ in range(600)] + \
+    cases = [_gen_valid(rng, tier, raw=True) for _ in range(60)] + [_gen_nearsym(rng, tier) for _ in range(40)] + \
+        _small_scope(rng, "thorough") + [_gen_valid(rng, tier) for _ in range(600)] + \
         [_gen_malformed(rng) for _ in range(60)]
     for c in cases:
         try:
